@@ -23,7 +23,7 @@ type ConvCase struct {
 	N     int    `json:"n"`
 	Off   int    `json:"off,omitempty"`
 	Spare int    `json:"spare,omitempty"` // extra bytes of the backing array behind the value (sub / spare shapes)
-	Adds  []int  `json:"adds,omitempty"` // append history on the StringToBinary result
+	Adds  []int  `json:"adds,omitempty"`  // append history on the StringToBinary result
 }
 
 func dataPtr(b []byte) uintptr {
